@@ -65,20 +65,6 @@ theorem analyze_allFalse {cnf : CNF} {tr : Trail} {level : Nat} (ht : TrailOK cn
       simp only [hD] at h
       exact ih _ _ _ _ _ _ h (hstep orc.head?).1
 
-theorem length_insertSorted (x : Nat) (l : List Nat) : (insertSorted x l).length = l.length + 1 := by
-  induction l with
-  | nil => rfl
-  | cons y ys ih =>
-    unfold insertSorted
-    split
-    · rfl
-    · simp [ih]
-
-theorem length_sortNat (l : List Nat) : (sortNat l).length = l.length := by
-  induction l with
-  | nil => rfl
-  | cons x xs ih => simp [sortNat, length_insertSorted] at ih ⊢; exact ih
-
 theorem mapM_lvlOf_some {tr : Trail} (hn : (tr.map (·.name)).Nodup) :
     ∀ {c : Clause}, AllFalse tr c → ∃ lv, c.mapM (fun l => lvlOf tr l.1) = some lv ∧ lv.length = c.length := by
   intro c
@@ -107,12 +93,8 @@ theorem backtrackLevel_ok {tr : Trail} (hn : (tr.map (·.name)).Nodup) {c : Clau
       | [], hne, _ => simp at hne
       | [x], _, hnot1 => exact absurd rfl (hnot1 x)
       | _ :: _ :: _, _, _ => simp
-    have hs : (sortNat lv).length = c.length := by rw [length_sortNat, h2]
     unfold secondHighest
-    simp only []
     rw [if_neg (by omega)]
-    have : (sortNat lv).length - 2 < (sortNat lv).length := by omega
-    rw [List.getElem?_eq_getElem this]
     exact ⟨_, rfl⟩
 
 end Holpy.C15
